@@ -23,7 +23,15 @@ pub fn gen(r: &mut Rng) -> Value {
     ];
     let n = 1 + r.below(4);
     let seq: Vec<String> = (0..n).map(|_| r.pick(&calls).to_string()).collect();
-    json!({"calls": seq, "with_out": r.chance(2, 3)})
+    // caller variables whose names are close to the names the called command uses internally (same textual
+    // prefix without the `::` delimiter, the bare scope name, numbered names, names used inside script bodies)
+    let shapes = ["scope::@", "scope::@_x::v", "scope::@x", "scope::@:", "@", "@::v", "scope::", "scope", "1", "2", "argument", "array", "result", "scope::@ ::v"];
+    let mut extra = vec![];
+    for _ in 0..r.below(4) {
+        let cmd = r.pick(&seq).split(' ').next().unwrap_or("x").to_string();
+        extra.push(r.pick(&shapes).replace('@', &cmd));
+    }
+    json!({"calls": seq, "with_out": r.chance(2, 3), "caller_vars": extra})
 }
 
 /// structural class of an input (to tell the listed known finding from a new violation)
@@ -45,6 +53,11 @@ fn run_inner(input: &Value) -> Option<Value> {
     duckscriptsdk::load(&mut context.commands).ok()?;
     let setup = "arr = array a b c\nmap = map\nmap_put ${map} k1 v1\nset = set_new x y\nva = set 1\nvb = set 2\nscope::caller::x = set keep";
     context = runner::run_script(setup, context, None).ok()?;
+    if let Some(vs) = input["caller_vars"].as_array() {
+        for (k, v) in vs.iter().enumerate() {
+            context.variables.insert(v.as_str()?.to_string(), format!("caller{}", k));
+        }
+    }
     let with_out = input["with_out"].as_bool()?;
     for (i, c) in input["calls"].as_array()?.iter().enumerate() {
         let call = c.as_str()?;
